@@ -15,6 +15,7 @@ type Val struct {
 	T      string
 	Ty     types.Type
 	IsBool bool
+	Refs   []refAlt // for pointer values: the variables/fields this pointer may alias (see refs.go)
 }
 
 type Obligation struct {
@@ -538,7 +539,15 @@ func (f *Frame) mergeStates(states []*State) *State {
 			t = ite(deltas[i], live[i].env[o].T, t)
 		}
 		v := Val{T: t, Ty: first.Ty, IsBool: first.IsBool}
-		out.env[o] = f.name(o.Name(), v)
+		// aliasing alternatives of pointer values survive the join, guarded by their branch
+		for i, s := range live {
+			for _, alt := range s.env[o].Refs {
+				v.Refs = append(v.Refs, refAlt{Cond: conj([]string{deltas[i], alt.Cond}), Root: alt.Root, Fields: alt.Fields})
+			}
+		}
+		nv := f.name(o.Name(), v)
+		nv.Refs = v.Refs
+		out.env[o] = nv
 	}
 	ghs := map[string]bool{}
 	for _, s := range live {
